@@ -127,7 +127,7 @@ def judge(ctx, res, stream):
                                                    and not (real - (SA | SB))
                                                    and all_miscleaved(r['desc']['kw']['cleavage_rule'], core_missing,
                                                                       bool(r['desc']['kw'].get('w2f_reassignment'))))
-                                  else None))))
+                                  else (cv_checks.KF_NONDET if cv_checks.unstable_output(r) else None)))))
         elif exc_missing:
             ctx.add_violation(
                 f'peptide(s) {sorted(exc_missing)[:3]} missing: cleavage-exception context split across '
@@ -443,11 +443,20 @@ def run(ctx: common.Ctx):
                 d_ = r['desc']
                 sec_end = kind in ('fusion', 'combo') and d_.get('breakpoint_tx') is not None and any(
                     s_ + 3 == d_['breakpoint_tx'] for s_ in d_.get('donor_sec', []))
+                key = 'sec-codon-ends-at-fusion-breakpoint' if sec_end else None
+                extra_txt = ''
+                if key is None:
+                    # the command's output on this very input may vary from run to run (open finding):
+                    # the same input is run six more times
+                    sizes = cv_checks.unstable_output(r)
+                    if sizes:
+                        key = cv_checks.KF_NONDET
+                        extra_txt = f' — repeated runs of the same input give peptide sets of sizes {sizes}'
                 ctx.add_violation(
                     f'{len(missing)} peptide(s) of the {kind} definition are missing from the callVariant '
-                    f'FASTA, e.g. {sorted(missing)[:3]}', dict(r['desc'], kind='missing-' + kind,
-                                                               missing=sorted(missing)[:20]),
-                    finding_key='sec-codon-ends-at-fusion-breakpoint' if sec_end else None)
+                    f'FASTA, e.g. {sorted(missing)[:3]}{extra_txt}', dict(r['desc'], kind='missing-' + kind,
+                                                                         missing=sorted(missing)[:20]),
+                    finding_key=key)
     cv_checks.fusion_pairs(ctx, ctx.n(40, 600))
     # Layer G, function level, third stage, DIRECT: the real stages called in-process on small
     # transcripts with ARBITRARY annotations (CDS end on a stop codon or not, Sec annotations on
